@@ -106,6 +106,15 @@ func checkLexDiff(text []byte) string {
 	if !want.Err {
 		good = len(want.Tokens)
 	}
+	unspecAt := -1
+	for i := 0; i < good; i++ {
+		if want.Tokens[i].Unspec {
+			// an escape form the properties leave open: nothing from this token on is asserted
+			unspecAt = i
+			good = i
+			break
+		}
+	}
 	for i := 0; i < good; i++ {
 		if i >= len(got.Toks) {
 			return fmt.Sprintf("%q: scanner produced %d tokens, reference %d", text, len(got.Toks), len(want.Tokens))
@@ -127,6 +136,9 @@ func checkLexDiff(text []byte) string {
 		} else if !w.Unspec && (w.Kind == "id" || w.Kind == "str" || strings.HasPrefix(w.Kind, "kw:")) && w.Value != g.Value {
 			return fmt.Sprintf("%q: token %d (%s) value %q, reference %q", text, i, w.Kind, g.Value, w.Value)
 		}
+	}
+	if unspecAt >= 0 {
+		return ""
 	}
 	if want.Err && got.Errors == 0 {
 		return fmt.Sprintf("%q: malformed at offset %d per the lexical grammar but the scanner reported no error (tokens %v)", text, want.ErrPos, kinds(got.Toks))
